@@ -47,6 +47,26 @@ class Boom(Exception):
     """the exception a job raises on purpose (one instance per job)"""
 
 
+class BoomRT(RuntimeError, Boom):
+    """... of the RuntimeError family"""
+
+
+class BoomBase(BaseException):
+    """... deriving from BaseException only"""
+
+
+def make_exc(name):
+    """j0: no message; j1: RuntimeError family; j2: derives from BaseException only; j3: plain; and so on"""
+    k = int(name[1:])
+    if k % 4 == 0:
+        return Boom()
+    if k % 4 == 1:
+        return BoomRT(name)
+    if k % 4 == 2:
+        return BoomBase(name)
+    return Boom(name)
+
+
 class Sentinel:
     def __init__(self, name):
         self.name = name
@@ -230,7 +250,7 @@ def _sched_class(base, run):
             except asyncio.CancelledError:
                 run.log("run_cancel", name)
                 raise
-            except Exception as e:
+            except (Exception, BoomBase) as e:
                 run.log("run_exc", name, e)
                 raise
             run.log("run_end", name, r)
@@ -383,9 +403,9 @@ def _draw(api, prof, run, top):
         p["post"] = api.choice("post_" + n, prof.post + 1) if prof.post and ylds else 0
         p["kind"] = (api.choice("k_" + n, 2) if prof.kind == "free"
                      else (1 if prof.kind == "corojob" else 0))
-        node.sentinel = Sentinel(node.name)
-        # every other job raises an exception that has no message at all
-        node.exc = Boom(node.name) if int(node.name[1:]) % 2 else Boom()
+        # results: an opaque object, or (j1, j5, ...) a tuple; exceptions: see make_exc
+        node.sentinel = Sentinel(node.name) if int(node.name[1:]) % 4 != 1 else (Sentinel(node.name), node.name)
+        node.exc = make_exc(node.name)
         if run.tweak is not None:
             run.tweak(node)
 
@@ -457,7 +477,7 @@ def _draw(api, prof, run, top):
             draw_job(node)
             cls = VCoroJob if node.p["kind"] == 1 else VJob
             node.obj = cls(run, node, vh, critical=node.p["crit"], forever=node.p["forever"],
-                           label=node.name)
+                           label=None if node.name == "j2" else node.name)
             node.obj._node = node
             return node.obj
         draw_sched(node)
@@ -529,7 +549,7 @@ def execute(run, on_loop=None):
             raise
         except symx.Violation:
             raise
-        except Exception as e:
+        except (Exception, BoomBase) as e:
             run.outcome = ("exc", e)
     finally:
         sys.stdout = saved
@@ -664,8 +684,8 @@ def flatten(run, api):
     for j in atoms(run.top):
         c = Node(j.name, False, top)
         c.p = j.p
-        c.sentinel = Sentinel(j.name)
-        c.exc = Boom(j.name) if int(j.name[1:]) % 2 else Boom()
+        c.sentinel = Sentinel(j.name) if int(j.name[1:]) % 4 != 1 else (Sentinel(j.name), j.name)
+        c.exc = make_exc(j.name)
         clones[j.name] = c
         top.children.append(c)
         flat.nodes[c.name] = c
